@@ -180,7 +180,8 @@ def _mutating_ops(o) -> List[Any]:
     return [op for op in (o.get("ops") or []) if op[0] in ("store", "sync")]
 
 
-def _check_values(prop: str, shape: Shape, hist, obs, realisation: str, also_log: bool = True) -> List[Viol]:
+def _check_values(prop: str, shape: Shape, hist, obs, realisation: str, also_log: bool = True,
+                  check_code: bool = False) -> List[Viol]:
     """Values as C01, execution counts as C02, and for evaluations the specification rejects:
     a DDS error, nothing executed, nothing written."""
     res: List[Viol] = []
@@ -198,6 +199,10 @@ def _check_values(prop: str, shape: Shape, hist, obs, realisation: str, also_log
                 break
             if not e.get("dds"):
                 res.append(("%s|rejected-with|%s|expected-dds-error=%s|%s" % (prop, e["type"], rec["err"], tags),
+                            _detail(shape, hist, i, o, realisation=realisation)))
+                break
+            if check_code and e.get("code") != rec["err"]:
+                res.append(("%s|wrong-error-code|expected=%s|got=%s|%s" % (prop, rec["err"], e.get("code"), tags),
                             _detail(shape, hist, i, o, realisation=realisation)))
                 break
             if o.get("log") or _mutating_ops(o):
@@ -233,6 +238,70 @@ def _check_values(prop: str, shape: Shape, hist, obs, realisation: str, also_log
 
 def c09(shape: Shape, hist, obs, realisation: str = "") -> List[Viol]:
     return _check_values("C09", shape, hist, obs, realisation)
+
+
+# -- C11 ---------------------------------------------------------------------------------
+
+def c11(shape: Shape, hist, obs, realisation: str = "") -> List[Viol]:
+    # fingerprints without the path permutation (tags[2:] of overlap shapes): keep kind + placement
+    sh = shape
+    if shape.tags and shape.tags[0] in ("overlap", "no-overlap"):
+        import copy
+        sh = copy.copy(shape)
+        sh.tags = shape.tags[:2] + ["npaths:%d" % len(shape.tags[2].split(","))]
+    return _check_values("C11", sh, hist, obs, realisation, check_code=True)
+
+
+# -- C14 ---------------------------------------------------------------------------------
+
+def c14(shape: Shape, hist, obs, realisation: str = "") -> List[Viol]:
+    """Values and execution counts as C01/C02 (an edit of non-accepted code must re-execute nothing,
+    an edit of accepted code must be seen); a refused evaluation names the non-accepted module."""
+    rl = ",".join(x for x in realisation.split(",") if x.startswith("layouts") or x.startswith("accept"))
+    if "ext-datafun-called" in shape.tags:
+        # the call sits in accepted code but is itself invisible to the analysis: the refusal may
+        # come when the call is reached; C14 demands a DDS error naming the module, nothing committed
+        res = []
+        for (i, rec) in evals(hist):
+            o = obs.get(i, {})
+            e = o.get("err")
+            if e is None or not e.get("dds"):
+                res.append(("C14|rejected-with|%s|expected-dds-error=NOT_ACCEPTED|ext-datafun-called|%s" % ((e or {}).get("type"), rl),
+                            _detail(shape, hist, i, o, realisation=realisation)))
+            elif "vext" not in e.get("msg", ""):
+                res.append(("C14|refusal-does-not-name-module|ext-datafun-called", _detail(shape, hist, i, o, realisation=realisation)))
+            elif [op for op in (o.get("ops") or []) if op[0] == "sync"]:
+                res.append(("C14|refused-but-committed|ext-datafun-called", _detail(shape, hist, i, o, realisation=realisation)))
+            if res:
+                break
+        return res
+    res = _check_values("C14", shape, hist, obs, realisation)
+    res = [("%s|%s" % (fp, rl), d) for (fp, d) in res]
+    if res:
+        return res
+    key_of: Dict[str, str] = {}
+    for (i, rec) in evals(hist):
+        o = obs.get(i, {})
+        if rec["err"] == "NOT_ACCEPTED" and "ext-keep" not in shape.tags:
+            msg = (o.get("err") or {}).get("msg", "")
+            if "vext" not in msg:
+                res.append(("C14|refusal-does-not-name-module|%s" % ",".join(shape.tags),
+                            _detail(shape, hist, i, o, realisation=realisation)))
+                break
+        if rec["err"] != "":
+            continue
+        sync = [op for op in (o.get("ops") or []) if op[0] == "sync"]
+        if sync:
+            real = dict((p, k) for (p, k) in sync[-1][1])
+            for (p, c) in rec["req"]:
+                cid = cone_id(c)
+                if p in real:
+                    if cid in key_of and key_of[cid] != real[p]:
+                        res.append(("C14|sig-changed|%s|%s" % (edit_cause(shape, hist, i), rl),
+                                    _detail(shape, hist, i, o, realisation=realisation, path=p)))
+                        return res
+                    key_of.setdefault(cid, real[p])
+    return res
 
 
 # -- C10 ---------------------------------------------------------------------------------
